@@ -857,6 +857,9 @@ impl<Backing : AsRef<[u32]> + AsMut<[u32]>> DrawTarget<Backing> {
         };
         let mut combined_bounds = euclid::Rect::zero();
         for (id, position) in ids.iter().zip(positions.iter()) {
+            // the glyphs are rasterized at their device space positions below, so that's
+            // where their bounds need to be taken
+            let position = self.transform.transform_point(*position);
             let bounds = font.raster_bounds(
                 *id,
                 point_size,
